@@ -109,7 +109,7 @@ def gc_target(limit_gb=3.0):
     try:
         out = subprocess.run(["du", "-sk", td], stdout=subprocess.PIPE, text=True).stdout.split()
         if out and int(out[0]) > limit_gb * 1024 * 1024:
-            shutil.rmtree(td, ignore_errors=True)
+            extract.remove_target_if_idle(td)
     except Exception:
         pass
 
